@@ -121,6 +121,10 @@ func (m *kvm) apply(op string) bool {
 	case "K":
 		delete(m.simple, "a")
 		delete(m.children, "a")
+	case "Ibig": // one import of 40 keys: all or nothing
+		for i := 0; i < 40; i++ {
+			m.simple[fmt.Sprintf("i%02d", i)] = fmt.Sprintf("w%02d", i)
+		}
 	}
 	return true
 }
@@ -146,6 +150,14 @@ func doOp(kv *aof.DiskKV, op string) error {
 			{SimpleValue: []byte("iv")}, {PrefixChildren: [][]byte{[]byte("x"), []byte("z")}}})
 	case "K":
 		return kv.RemoveKeys(ctx, [][]byte{[]byte("a")})
+	case "Ibig":
+		var ks [][]byte
+		var vs []*protocol.KVTransfer
+		for i := 0; i < 40; i++ {
+			ks = append(ks, []byte(fmt.Sprintf("i%02d", i)))
+			vs = append(vs, &protocol.KVTransfer{SimpleValue: []byte(fmt.Sprintf("w%02d", i))})
+		}
+		return kv.Import(ctx, ks, vs)
 	}
 	return fmt.Errorf("bad op %s", op)
 }
@@ -470,7 +482,7 @@ func c20(c *report.Check) {
 	hists := c20Histories(depth)
 	// multi-segment variant: 1.1 MB values roll the 2 MB log segment, so that a rejected
 	// mutation can be the first entry of a new segment
-	big := [][]string{{"Pbig", "Apx", "Pbig2", "Apx"}, {"Pbig", "Pbig2", "Apx", "Apx"}, {"Apx", "Pbig", "Pbig2", "Da"}}
+	big := [][]string{{"Ibig"}, {"Pa1", "Ibig", "Apx"}, {"Apx", "Apx", "Ibig", "Da"}, {"Pbig", "Apx", "Pbig2", "Apx"}, {"Pbig", "Pbig2", "Apx", "Apx"}, {"Apx", "Pbig", "Pbig2", "Da"}}
 	if c.Thorough() {
 		big = append(big, []string{"Pbig", "Pbig2", "Pbig", "Apx", "Apx"}, []string{"Pbig", "Apx", "Apx", "Pbig2"})
 	}
@@ -506,7 +518,7 @@ func c20(c *report.Check) {
 	c.Set("histories", nh)
 	c.Set("crash_images", images)
 	c.Set("distinct_nontrivial", dist.N())
-	c.Set("rule", fmt.Sprintf("every mutation history of length <= %d over %v (+ %d multi-segment histories with 1.1 MB values) driven through the real DiskKV with its writer running and no clean stop; through the patched tidwall/wal copy a crash image of the data directory is taken before every mutating file-system operation (open/create/truncate, write, sync-less close, rename, remove); every image is reopened with the real aof.New and its simple values and prefix children must equal the model state after the acknowledged prefix or after the in-flight mutation (rejected mutations contribute nothing); the recovered store must then accept a further mutation and show exactly the recovered state plus that mutation after a clean stop and another reopen%s; class = (history length, rejected mutations, kinds of file operations)", depth, c20Alphabet, len(big), map[bool]string{true: "; histories <= 4 additionally crash a second time at every file operation of the recovery", false: ""}[c.Thorough()]))
+	c.Set("rule", fmt.Sprintf("every mutation history of length <= %d over %v (+ %d histories with a 40-key import or with 1.1 MB values that roll the log segment) driven through the real DiskKV with its writer running and no clean stop; through the patched tidwall/wal copy a crash image of the data directory is taken before every mutating file-system operation (open/create/truncate, write, sync-less close, rename, remove); every image is reopened with the real aof.New and its simple values and prefix children must equal the model state after the acknowledged prefix or after the in-flight mutation (rejected mutations contribute nothing); the recovered store must then accept a further mutation and show exactly the recovered state plus that mutation after a clean stop and another reopen%s; class = (history length, rejected mutations, kinds of file operations)", depth, c20Alphabet, len(big), map[bool]string{true: "; histories <= 4 additionally crash a second time at every file operation of the recovery", false: ""}[c.Thorough()]))
 	c.Set("samples", dist.Samples)
 	c.Set("exhaustive", true)
 	c.Assume("process-crash semantics: every completed file-system call survives, an interrupted write leaves a prefix; power loss of unsynced data is C22", "tidwall/wal v1.2.1 is exercised through a version-pinned copy whose only change is routing os calls through the hook layer")
